@@ -6,6 +6,15 @@ use std::io::Write;
 pub fn run(args: &[String]) {
     silence_panics();
     let mut w = out();
+    if args.iter().any(|a| a == "--gen-demo") {
+        let mut rng = Rng::new(arg_u64(args, "--seed", 1));
+        for _ in 0..arg_u64(args, "--n", 3) {
+            let prog = crate::gen::Gen { rng: &mut rng, sema_safe: true }.program(8, 2);
+            let (text, _) = crate::gen::print_program(&prog, crate::gen::Layout { redundant_parens: false, trivia: 0 }, &mut rng);
+            let o = run_sema(&text);
+            writeln!(w, "-----\n{text}\n=> syntax_errors={} panic={:?} errors={:?}", o.syntax_errors, o.panic, o.errors.iter().map(|e| e.0.clone()).collect::<Vec<_>>()).unwrap();
+        }
+    }
     if let Some(t) = arg_val(args, "--probe") {
         let o = run_sema(&t);
         writeln!(w, "{o:#?}").unwrap();
